@@ -37,20 +37,25 @@ def run_graphs(ctx, order, prop_assumptions, small=False):
     """Shared by C07 (ORDER = FALSE) and the merge-position clause of C08 (ORDER = TRUE)."""
     thorough = ctx.tier == "thorough"
     tcfg = TCFG % ("TRUE" if order else "FALSE")
-    bounds = [(2, 1, 1)] if not thorough else [(2, 2, 1), (2, 1, 2)]
+    # (A, B, R bounds, how many of the exported graphs are replayed against the real code; None = all)
+    bounds = [(2, 1, 1, 60000)] if not thorough else [(2, 1, 1, None), (2, 2, 1, 120000)]
     if small:
-        bounds = [(1, 1, 1)] if not thorough else [(2, 1, 1)]
+        bounds = [(1, 1, 1, None)] if not thorough else [(2, 1, 1, None)]
     cases, mruns = [], []
-    for a, b, r in bounds:
+    for a, b, r, keep in bounds:
         run = ctx.tlc_model("MC_YamlGraph", None, cfg_text=CFG % (a, b, r, "TRUE"), label="MC_YamlGraph A<=%d B<=%d R<=%d" % (a, b, r),
                             workers=16, timeout=3000)
         mruns.append(run)
         cs = vlib.export_cases(run)
         if len(cs) != run.distinct:
             raise vlib.MachineryError("export: %d cases for %d states" % (len(cs), run.distinct))
+        if keep is not None and len(cs) > keep:
+            import random
+            random.Random(ctx.seed).shuffle(cs)        # TLC has checked all of them on the model; a seeded sample meets the code
+            cs = cs[:keep]
         cases += cs
     if thorough and not small:
-        ctx.tlc_model("MC_YamlGraph", None, cfg_text=CFG % (2, 2, 2, "FALSE"), label="MC_YamlGraph A<=2 B<=2 R<=2 (model only)",
+        ctx.tlc_model("MC_YamlGraph", None, cfg_text=CFG % (2, 1, 2, "FALSE"), label="MC_YamlGraph A<=2 B<=1 R<=2 (model only)",
                       workers=16, timeout=3400)
         mruns.append(ctx.tlc_runs[-1])
     for i, c in enumerate(cases):
@@ -60,7 +65,7 @@ def run_graphs(ctx, order, prop_assumptions, small=False):
         if i % 3 == 1:
             # same graph over keys whose YAML spelling is not canonical: x -> 12 (written 0xc, 1_2, +12 ...), y -> true (True, TRUE)
             ren = {"x": "12", "y": "true"}
-            c["g"] = {n: [dict(e, k=ren.get(e["k"], e["k"])) for e in es] for n, es in c["g"].items()}
+            c["g"] = {n: (es if n == "S" else [dict(e, k=ren.get(e["k"], e["k"])) for e in es]) for n, es in c["g"].items()}
             c["spell"] = True
     traces, sums = vlib.drive_cases(ctx, "c07", cases, nchunks=12)
     t2, s2 = vlib.drive_gen(ctx, "c07", 8, extra=["-n", (1500 if thorough else 150) // (3 if small else 1)])
@@ -73,7 +78,7 @@ def run_graphs(ctx, order, prop_assumptions, small=False):
         "traces_validated_against_impl": n - len(bad),
         "samples": [s for sm in sums + s2 for s in sm.get("samples", [])][:3],
         "evaluations": n,
-        "distinct_nontrivial": sum(1 for c in cases if any(e["m"] or e["v"]["t"] != "s" for k in ("A", "B", "C", "R") for e in c["g"][k][(1 if k == "R" else 0):]))
+        "distinct_nontrivial": sum(1 for c in cases if any(e["m"] or e["v"]["t"] != "s" for k in ("A", "B", "C", "R") for e in c["g"].get(k, [])[(1 if k == "R" else 0):]))
         + sum(s.get("events", 0) for s in s2) // 4,
         "rule": "TLC: every graph over two anchored mappings (<= MaxA / MaxB entries over keys x,y) and a root (<= MaxR entries over x,y,z); entry = "
                 "explicit key with scalar / alias / sequence of aliases, or `<<` with alias / sequences of aliases in both orders; aliases may "
